@@ -494,6 +494,12 @@ func init() {
 		e.assumeIn(c.st, app(">=", b, "0"))
 		return c.def("balcoin", app("mk_"+ss.name, c.args[3].S, b))
 	})
+	bank("GetSupply", func(c *callCtx) Val {
+		// total supply of the (single modelled) denomination
+		e := c.e()
+		ss := e.vc.structInfo(c.rt)
+		return c.def("supplycoin", app("mk_"+ss.name, c.args[2].S, e.bankSupply(c.st)))
+	})
 	bank("HasBalance", func(c *callCtx) Val {
 		e := c.e()
 		ss := e.vc.structInfo(c.args[3].T)
